@@ -515,3 +515,55 @@ def r11(ctx, R):
             R.check(not hits, f'{ci.name}.{meth} (defined by {owner.name}) :: the two rows of f[m] are addressed or summed, never used as one operand', w, 'L.f[m].impl / L.f[m].expl (or their sum)', hits[:3])
     if n < 8:
         raise AnalysisError(f'C03.R11: only {n} resolved IMEX sweeper methods found')
+
+
+def _self_assembled_residual(fn):
+    """(assembles?, has tau?) for a compute_residual implementation: it assembles the defect itself if it accumulates Q-weighted
+    f values / integrate() into a local that ends up in status.residual; tau must then be added under its is-not-None guard"""
+    src = ast.unparse(fn)
+    assembles = ('status.residual' in src) and (re.search(r'Qmat\[|\.integrate\(', src) is not None)
+    tau_added = False
+    for s in ast.walk(fn):
+        if isinstance(s, (ast.AugAssign, ast.Assign)) and 'tau[' in ast.unparse(s.value if isinstance(s, ast.AugAssign) else s.value):
+            tau_added = True
+    guarded = re.search(r'tau\[[^\]]+\] is not None', src) is not None
+    return assembles, tau_added and guarded
+
+
+@rule('C03', 'C03.R12', 'the FAS correction is part of EVERY residual that a sweeper assembles itself: any compute_residual implementation in the repository (library and projects) that builds u0 + dt*Q*F - U from Q entries / integrate() adds tau[m] under its is-not-None guard in every arm (the rule found the last_* arm of the Resilience efficient sweepers without it: F30, repaired)', floor=5)
+def r12(ctx, R):
+    from ..model import Repo
+    big = ctx.memo('repo_with_projects', lambda: Repo(ctx.repo.root, extra_dirs=('pySDC/projects',)))
+    base = big.cls('pySDC/core/sweeper.py', 'Sweeper')
+    n = 0
+    seen = set()
+    cands = list(big.subclasses(base)) + [c for c in big.classes.values() if 'compute_residual' in c.methods]
+    for ci in cands:
+        fn = ci.methods.get('compute_residual')
+        if fn is None or id(fn) in seen:
+            continue
+        seen.add(id(fn))
+        assembles, has_tau = _self_assembled_residual(fn)
+        w = f'{ci.module.relpath}:{ci.name}.compute_residual'
+        if not assembles:
+            continue
+        n += 1
+        R.fn(w)
+        # every arm that stores status.residual from a locally assembled defect: count the defect accumulators and the tau additions
+        accs = {}
+        for s in ast.walk(fn):
+            if isinstance(s, ast.AugAssign) and isinstance(s.op, ast.Add):
+                b = s.target
+                while isinstance(b, ast.Subscript):
+                    b = b.value
+                if isinstance(b, ast.Name):
+                    v = ast.unparse(s.value)
+                    accs.setdefault(b.id, {'q': False, 'tau': False})
+                    if re.search(r'Qmat\[|\.f\[', v):
+                        accs[b.id]['q'] = True
+                    if 'tau[' in v:
+                        accs[b.id]['tau'] = True
+        lacking = sorted(a for a, d in accs.items() if d['q'] and not d['tau'])
+        R.check(has_tau and not lacking, f'{ci.name}.compute_residual :: every locally assembled defect adds tau under `tau[..] is not None`', w, 'res += tau[m] if tau[m] is not None, in every arm', f'accumulators without a tau term: {lacking}' if lacking else 'no guarded tau term')
+    if n < 5:
+        raise AnalysisError(f'C03.R12: only {n} self-assembled residuals found')
